@@ -902,10 +902,10 @@ def suite_two_workers(tier, seed):
             sa.event.listen(slow.db.sync_engine, "commit", lambda conn: await_only(asyncio.sleep(0.05)))
             alive = list(range(len(workers)))
 
-            async def submit(w, e, visible=True):
+            async def submit(w, e, visible=True, probe=True):
                 # somebody asks the other workers for the id before the event exists (a dead /e/<id> link that is followed early):
                 # that must not keep the announcement from being delivered there later
-                if rng.random() < 0.5:
+                if probe and rng.random() < 0.5:
                     for o in alive:
                         if o != w:
                             try:
@@ -966,7 +966,7 @@ def suite_two_workers(tier, seed):
             nslots = rcv.query_slot._value
             for _ in range(nslots):
                 await rcv.query_slot.acquire()
-            await submit(0 if len(workers) > 1 else 0, env.mk_event(2, 1, env.NOW - 8, [["t", "public"]], "while-busy"))
+            await submit(0 if len(workers) > 1 else 0, env.mk_event(2, 1, env.NOW - 8, [["t", "public"]], "while-busy"), probe=False)   # (a look-up would wait for a slot too)
             await asyncio.sleep(1.3)
             for _ in range(nslots):
                 rcv.query_slot.release()
